@@ -291,10 +291,21 @@ static uint32_t c18_acc_read(const void *p, int size) { (void)size; return *(con
 static void c18_acc_write(void *p, uint32_t v, int size) { (void)size; *(uint32_t *)p = v; }
 static const char *c18_route_name[4] = { "a8r8g8b8 source", "a8b8g8r8 source (general per-pixel fetcher)", "a8r8g8b8 source behind accessors", "a2r10g10b10 source (float pipeline)" };
 static int image_check_route(const pixman_fixed_t *params, int n, const axcfg *cx, const axcfg *cy, int w, int h, int tol, const char *desc0, int route);
+/* what the three 8-bit consumers delivered for the block under test (converted to a8r8g8b8): they implement one computation and must agree exactly,
+ * also where the statement's "constant is preserved" only holds to within a step (two axes with several taps each) */
+static uint32_t *g_route_out[3]; static int g_route_n;
 static int image_check(const pixman_fixed_t *params, int n, const axcfg *cx, const axcfg *cy, int w, int h, int tol, const char *desc)
 {
-    for (int route = 0; route < 4; route++) if (!image_check_route(params, n, cx, cy, w, h, tol, desc, route)) return 0;
-    return 1;
+    int ok = 1;
+    for (int route = 0; route < 4 && ok; route++) if (!image_check_route(params, n, cx, cy, w, h, tol, desc, route)) ok = 0;
+    if (ok) for (int r = 1; r < 3 && ok; r++) for (int i = 0; i < g_route_n; i++) if (g_route_out[r][i] != g_route_out[0][i]) {
+        char bx[160], by[160];
+        vf_violation("c18-consumers-disagree", "%s: constant image %08x at phase (%d,%d): the dedicated a8r8g8b8 fetcher gives %08x, %s gives %08x x[%s] y[%s]", desc, CONST_PIXEL,
+                     i % (1 << cx->bits), i / (1 << cx->bits), g_route_out[0][i], c18_route_name[r], g_route_out[r][i], cfg_str(cx, bx, sizeof bx), cfg_str(cy, by, sizeof by));
+        ok = 0; break;
+    }
+    for (int r = 0; r < 3; r++) { free(g_route_out[r]); g_route_out[r] = NULL; }
+    return ok;
 }
 static int image_check_route(const pixman_fixed_t *params, int n, const axcfg *cx, const axcfg *cy, int w, int h, int tol, const char *desc0, int route)
 {
@@ -365,6 +376,10 @@ static int image_check_route(const pixman_fixed_t *params, int n, const axcfg *c
         }
     }
     if (ok && tol > 0 && !vf_in_confirm) __atomic_add_fetch(worst ? &sh->offby1_2d : &sh->exact2d, 1, __ATOMIC_RELAXED);
+    if (ok && route < 3) {
+        g_route_n = dw * dh; free(g_route_out[route]); g_route_out[route] = malloc(sizeof(uint32_t) * (size_t)g_route_n);
+        memcpy(g_route_out[route], dbits, sizeof(uint32_t) * (size_t)g_route_n);
+    }
 out:
     if (src) pixman_image_unref(src);
     if (dst) pixman_image_unref(dst);
@@ -490,7 +505,7 @@ static void cross_case(uint64_t idx, void *ctx)
     vf_outcome(vf_hash64(params, (size_t)n * sizeof params[0], 19));
     /* 2-D image check at every phase pair, when cheap enough and when the bound of the header comment applies */
     uint64_t work = ((uint64_t)w * h) << (cx->bits + cy->bits);
-    if ((int64_t)w * h <= 256 && work <= (1u << 22)) {
+    if ((int64_t)w * h <= 1200 && work <= (1u << 22)) {
         image_check(params, n, cx, cy, w, h, 1, "cross");
         /* the same block stored over the block of the swapped configuration (same length, other layout) on an image that was used with it */
         if (!vf_failed() && cx != cy) {
